@@ -464,7 +464,7 @@ impl PrettyPrinter {
             format_with_ellipsis(column_name.as_str(), self.column_widths[column_name])
         });
         let header = header.join("");
-        let header_len = header.len();
+        let header_len = header.chars().count();
         let header = format!("{}\n{}", header.trim_end(), "-".repeat(header_len));
         let mut body = aggregate
             .data
